@@ -63,8 +63,12 @@ def _space(tier):
     full = sigma()
     table = dict(full)
     small = [(k, table[k]) for k in SMALL_KEYS]
-    for (hk, h), (rk, r) in itertools.product(HEADERS, A.RETURNS[:2]):
+    for (hk, h), (rk, r) in itertools.product(HEADERS, A.RETURNS + A.RETURNS_PARTIAL):
         yield dict(kinds=[], ret=rk, hdr=hk), A.mk_ir([], r, h)
+    # every return kind (also description-only / type-only entries) under every header, next to one and two parameters
+    for (kind, p), (hk, h), (rk, r) in itertools.product(small[:3], HEADERS, A.RETURNS[2:] + A.RETURNS_PARTIAL):
+        yield dict(kinds=[list(kind)], ret=rk, hdr=hk), A.mk_ir([("alpha", p)], r, h)
+        yield dict(kinds=[list(kind), list(small[0][0])], ret=rk, hdr=hk), A.mk_ir([("alpha", p), ("beta", small[0][1])], r, h)
     for (kind, p), (hk, h), (rk, r) in itertools.product(full, HEADERS, A.RETURNS[:2]):
         yield dict(kinds=[list(kind)], ret=rk, hdr=hk), A.mk_ir([("alpha", p)], r, h)
     for k in (2, 3) if tier == "quick" else (2, 3, 4):
@@ -173,7 +177,7 @@ def run(case):
         return dict(outcome="parse-raises", transitions=2, violations=viol)
     c = dict(ctx)
     c["clause"] = "roundtrip"
-    for d in O.compare(ir, back, dict(literal_as_set=True, ignore_returns=True), c):
+    for d in O.compare(ir, back, dict(literal_as_set=True), c):
         d["detail"] = text
         viol.append(d)
     if O.normdoc(ir["doc"], False) not in O.normdoc(back.get("doc"), False):
@@ -184,10 +188,10 @@ def run(case):
 def describe(tier):
     return dict(
         rule="interfaces over 15 JSON-representable type shapes x legal defaults x doc/no-doc: all with 0 and 1 parameter x 3 headers (incl. empty) x "
-        "return/no-return; all ordered 2- and 3-tuples (thorough: 4) over a 9-kind collision alphabet; covering sequences of 4..8 parameters "
+        "every return kind (none, full, with default, str, long, description-only, type-only); all ordered 2- and 3-tuples (thorough: 4) over a 9-kind collision alphabet; covering sequences of 4..8 parameters "
         "(every kind at every position); a case = one interface; trivial = the parameterless ones",
         bounds=dict(types=JSON_TYPES, small=[list(k) for k in SMALL_KEYS], headers=[h[0] for h in HEADERS]),
         exhaustive=True,
         assumptions=["jsonschema 4.26 Draft202012Validator as the meta-schema oracle; re.search as the semantics of JSON-schema 'pattern'",
-                     "the return entry is folded into the description text by the emitter and is not compared on the way back"],
+                     "the return entry is folded into the description text by the emitter; the parser recovers it from there and it is compared like a parameter"],
     )
